@@ -123,8 +123,10 @@ class St:
 
 
 class LoopTr:
-    def __init__(self, fn: ast.FunctionDef) -> None:
+    def __init__(self, fn: ast.FunctionDef, helpers: dict | None = None) -> None:
         self.fn = fn
+        self.helpers = helpers or {}     # 'name' / 'Class.name' -> FunctionDef of the same module (inlined at call sites)
+        self.n_inlined = 0
         self.leaves: list = []
         self.n_index = 0          # paths on which `contents[-1]` is evaluated where the list may be empty
         self.root0_guarded: list = []   # per `return root[0]` path: is root known to have a child there?
@@ -492,11 +494,66 @@ class LoopTr:
         if isinstance(s, ast.Try):
             return self.do_try(s, rest, st, final)
         if isinstance(s, (ast.Assign, ast.AnnAssign)):
+            inl = self.inline_helper(s)
+            if inl is not None:
+                return self.walk(inl + rest, st, final)
             tgts = s.targets if isinstance(s, ast.Assign) else [s.target]
             return self.assign(s, tgts, s.value, st, go)
         if isinstance(s, ast.Expr) and isinstance(s.value, ast.Call):
             return self.call_stmt(s, s.value, st, go)
         raise _err(s, f'unrecognised statement {type(s).__name__}')
+
+    def inline_helper(self, s):
+        """`x = helper(a, b)` where helper is a function of the same module (or a static method of the class) whose
+        body is straight-line code ending in `return <local>`: the body with the parameters replaced by the argument
+        expressions (names, attributes of names, constants only: no effects, evaluated any number of times), the returned
+        local renamed to x and the other locals made unique.  None when the statement is not such a call (it is then read
+        as it stands, and an unknown call fails closed)."""
+        import copy
+        if not (isinstance(s, ast.Assign) and len(s.targets) == 1 and _is_name(s.targets[0]) and isinstance(s.value, ast.Call)):
+            return None
+        call, f = s.value, s.value.func
+        key = f.id if _is_name(f) else f'{f.value.id}.{f.attr}' if isinstance(f, ast.Attribute) and _is_name(f.value) else None
+        h = self.helpers.get(key)
+        if h is None or call.keywords or self.n_inlined > 40:
+            return None
+        a = h.args
+        if a.posonlyargs or a.kwonlyargs or a.vararg or a.kwarg or a.defaults or len(a.args) != len(call.args):
+            return None
+        ok_arg = lambda e: _is_name(e) or isinstance(e, ast.Constant) or (       # noqa: E731
+            isinstance(e, ast.Attribute) and _is_name(e.value))
+        if not all(ok_arg(e) for e in call.args):
+            return None
+        body = [x for x in h.body if not (isinstance(x, ast.Expr) and isinstance(x.value, ast.Constant))]
+        if not body or not isinstance(body[-1], ast.Return) or not _is_name(body[-1].value):
+            return None
+        if not all(isinstance(x, (ast.Assign, ast.AnnAssign, ast.Assert)) or (isinstance(x, ast.Expr) and isinstance(x.value, ast.Call))
+                   for x in body[:-1]):
+            return None
+        params = {p.arg: e for p, e in zip(a.args, call.args)}
+        stored = {n.id for x in body for n in ast.walk(x) if isinstance(n, ast.Name) and isinstance(n.ctx, ast.Store)}
+        ret = body[-1].value.id
+        if stored & set(params) or ret not in stored:
+            return None
+        self.n_inlined += 1
+        ren = {nm: (s.targets[0].id if nm == ret else f'_inl{self.n_inlined}_{nm}') for nm in stored}
+
+        class Sub(ast.NodeTransformer):
+            def visit_Name(self, n):
+                if n.id in params and isinstance(n.ctx, ast.Load):
+                    return copy.deepcopy(params[n.id])
+                if n.id in ren:
+                    return ast.copy_location(ast.Name(id=ren[n.id], ctx=n.ctx), n)
+                return n
+        out = []
+        for x in body[:-1]:
+            y = Sub().visit(copy.deepcopy(x))
+            for n in ast.walk(y):
+                if hasattr(n, 'lineno'):
+                    n.lineno = s.lineno
+            out.append(ast.fix_missing_locations(y))
+        self.locals |= set(ren.values())
+        return out
 
     def do_try(self, s: ast.Try, rest, st: St, final: bool) -> tuple:
         """try: cur_block = open_keyvalues[-1]  except IndexError: raise ...   (after open_keyvalues.pop())"""
@@ -736,6 +793,16 @@ def tree_stats(t) -> dict:
     return out
 
 
+def module_helpers(tree: ast.Module, cls: ast.ClassDef) -> dict:
+    """Functions a statement of parse may call and that are inlined there: module-level functions, static methods of
+    the class (as `Keyvalues.name`)."""
+    out = {n.name: n for n in tree.body if isinstance(n, ast.FunctionDef)}
+    for n in cls.body:
+        if isinstance(n, ast.FunctionDef) and any(_is_name(d, 'staticmethod') for d in n.decorator_list):
+            out[f'{cls.name}.{n.name}'] = n
+    return out
+
+
 def translate() -> tuple[str, dict]:
     tree = ast.parse(src_text('keyvalues.py'))
     cls = next((n for n in tree.body if isinstance(n, ast.ClassDef) and n.name == 'Keyvalues'), None)
@@ -744,7 +811,7 @@ def translate() -> tuple[str, dict]:
     cands = [n for n in cls.body if isinstance(n, ast.FunctionDef) and n.name == 'parse']
     if len(cands) != 1:
         raise TranslateError(f'keyvalues.py: expected one Keyvalues.parse, found {len(cands)}')
-    tr = LoopTr(cands[0])
+    tr = LoopTr(cands[0], module_helpers(tree, cls))
     body = tr.body_tree()
     fin = tr.final_tree()
     L = ['(* GENERATED by translate/c01_kvloop.py from Keyvalues.parse in src/srctools/keyvalues.py. Do not edit. *)',
